@@ -185,12 +185,17 @@ func c05Gen(runSeed uint64, tier string) *gen.Scenario {
 	sc := genEngineScenario(runSeed, tier, 0)
 	g := gen.New(runSeed ^ 0xc05)
 	sc.Requests = g.ListObjectsRequests(sc.Model, 8, [3]float64{0.7, 0.1, 0.2})
+	graded := g.Chance(0.12)
+	if graded {
+		// directed shape: several operands of one set operator with result sets of different sizes
+		sc.Model, sc.Tuples, sc.Requests = g.GradedSets()
+	}
 	stored := map[string]bool{}
 	for _, t := range sc.Tuples {
 		stored[t.Key()] = true
 	}
 	for i := range sc.Requests {
-		if g.Chance(0.15) {
+		if !graded && g.Chance(0.15) {
 			for _, t := range g.Tuples(sc.Model, 1+g.Intn(2), 0) {
 				if sc.Model.ValidForWrite(t) && !sc.Model.AmbiguousCondShape(t) && !stored[t.Key()] {
 					sc.Requests[i].CtxTuples = append(sc.Requests[i].CtxTuples, t)
